@@ -29,9 +29,15 @@ CURATED_TEXT = {
 'part_shared': "token A B C; start s; part t; s: t A t; t: B C*;",
 # ---- node operators
 'rename': "token A B C; start s; s: x*; x: A @xa | B C @xb | C;",
+'rename_to_rule': "token A B C D; start s; s: x D [y]; x: A @y | B; y: C;",
+'create_named_rule': "token A B C D; start s; s: <1 A B 1>y D [y]; y: C;",
 'rename_loop': "token A B C; start s; s: x C; x: A (B @many)* ;",
 'elide_cond': "token A B C; start s; s: x x; x: A ^ | B C;",
 'elide_rule': "token A B C Ws; skip Ws; start s; s: x* C; x^: A | B y; y: A A;",
+'elide_star': "token A B C; start s; s: (x C)+; x: A (B ^)*;",
+'elide_plus': "token A B C; start s; s: x C; x: A (B ^)+;",
+'elide_star_alt': "token A B C D; start s; s: x D; x: A (B | C ^)*;",
+'elide_opt_star': "token A B C D; start s; s: x D; x: A [B (C ^)*];",
 'elide_opt': "token A B C; start s; s: x C; x: A [B ^];",
 'create': "token A B C D Ws; skip Ws; start s; s: A <1 B C 1>bar D;",
 'create_nested': "token A B C D; start s; s: <1 A <2 B 2>inner C 1>outer D;",
@@ -70,6 +76,8 @@ CURATED_TEXT = {
 'choice_loop': "token A B C D; start s; s: (A B* C / A B* D)* D;",
 'choice_assert': "token A B C D; start s; s: (A !1 B / A B C) D;",
 'choice_readme': "token Id Num Eq Semi LPar RPar Ws; skip Ws; start top; top: stmt; stmt^: decl_stmt / expr_stmt; decl_stmt: type Id ~ [Eq expr] Semi; expr_stmt: expr Semi; expr: Id | Num | LPar (type RPar !1 ~ expr / expr RPar); type: Id;",
+'choice_rename_to_rule': "token A B C D E; start s; s: (x D / x E) [y]; x: A @y | B; y: C;",
+'choice_create_named_rule': "token A B C D E; start s; s: (x D / x E) [y]; x: <1 A B 1>y; y: C;",
 'choice_rename': "token A B C D; start s; s: x D; x: (A B @ab / A C @ac);",
 'choice_elide': "token A B C D; start s; s: x D; x: (A B ^ / A C);",
 'choice_create': "token A B C D; start s; s: (<1 A B 1>ab / A C) D;",
@@ -134,6 +142,21 @@ NEAR_MISS_TEXT = {
 'nm_ll1_nullable_loop': "token A B; start s; s: ([A])* B;",
 'nm_ll1_follow': "token A B C; start s; s: x A; x: B [A];",
 'nm_pratt_follow': "token N P; start s; s: e P; e: e P e | N;",
+'nm_ll1_alt_nullable_follow': "token X Y Z; start s; s: ([X] | Y) Y Z;",
+'nm_ll1_alt_nullable_follow_rule': "token X Y Z; start s; s: (a | Y) Y Z; a: [X];",
+'nm_ll1_alt_both_nullable': "token A B C; start s; s: ([A] | [B]) C;",
+'nm_ll1_alt_nullable_star': "token A B C; start s; s: (A* | B) A C;",
+'nm_ll1_alt_via_rules': "token A B C; start s; s: x | y; x: A B; y: A C;",
+'nm_ll1_alt_nested': "token A B C D; start s; s: (A | (B | A C)) D;",
+'nm_ll1_plus_follow': "token A B; start s; s: A+ A B;",
+'nm_ll1_star_nested_follow': "token A B C; start s; s: (A [B])* B C;",
+'nm_ll1_opt_nullable_body': "token A B; start s; s: [[A]] B;",
+'nm_ll1_opt_follow_rule': "token A B C; start s; s: x A C; x: B [A];",
+'nm_ll1_star_follow_rule': "token A B C; start s; s: x A C; x: B A*;",
+'nm_ll1_pratt_operator_follow': "token N P Q; start s; s: e P Q; e: e P e | N;",
+'nm_ll1_pratt_two_same_op': "token N P; start s; s: e; e: e P e | e P | N;",
+'nm_ll1_pratt_atom_conflict': "token N P; start s; s: e; e: e P e | N | N P;",
+'nm_ll1_part_follow': "token A B C; start s; part p; s: p A C; p: B [A];",
 'nm_unproductive_loop': "token A B; start s; s: x; x: A x;",
 'nm_empty_loop_body': "token A B; start s; s: (x)* B; x: [A];",
 'nm_choice_conflict_follow': "token A B; start s; s: x* A; x: (A B / A A);",
